@@ -79,15 +79,15 @@ RETURN_FACTORIES = {
 }
 
 
-def run_auth_program(prog, style="generator"):
-    """prog: list of outcome kinds (a key of RETURN_FACTORIES or of exception_factories()).  Runs the real
-    AuthStrategy.authenticate over stub sources; returns the trace record of AuthStrategy_Trace.tla."""
+def run_auth_calls(progs, style="generator"):
+    """progs: one list of outcome kinds (keys of RETURN_FACTORIES / exception_factories()) per authenticate() call.
+    Makes ONE strategy object and calls the real AuthStrategy.authenticate once per list (get_sources yields that
+    call's stubs); returns {"calls": [record of AuthStrategy_Trace.tla per call], ...}"""
     from paramiko.auth_strategy import AuthStrategy, AuthSource, AuthFailure
     from paramiko.config import SSHConfig
     make = exception_factories()
-    events = []
     transport = object()
-    notes = {"produced": 0, "transport_ok": True}
+    cur = {"stubs": [], "events": [], "produced": 0, "transport_ok": True}
 
     class Stub(AuthSource):
         def __init__(self, k, kind):
@@ -99,9 +99,9 @@ def run_auth_program(prog, style="generator"):
             return "Stub(%d, %s)" % (self.k, self.kind)
 
         def authenticate(self, tr):
-            events.append({"src": self.k})
+            cur["events"].append({"src": self.k if self in cur["stubs"] else 0})
             if tr is not transport:
-                notes["transport_ok"] = False
+                cur["transport_ok"] = False
             if self.kind in RETURN_FACTORIES:
                 self.ret = RETURN_FACTORIES[self.kind]()
                 self.returned, self.ret_repr = True, repr(self.ret)
@@ -109,64 +109,83 @@ def run_auth_program(prog, style="generator"):
             self.exc = make[self.kind]()
             raise self.exc
 
-    stubs = [Stub(k + 1, kind) for k, kind in enumerate(prog)]
-
     class Strategy(AuthStrategy):
         def get_sources(self):
+            stubs = cur["stubs"]
             if style == "list":
-                notes["produced"] = len(stubs)
+                cur["produced"] = len(stubs)
                 return list(stubs)
             if style == "iterator":
-                notes["produced"] = len(stubs)
+                cur["produced"] = len(stubs)
                 return iter(tuple(stubs))
-            return self._gen()
+            return self._gen(stubs)
 
-        def _gen(self):
+        def _gen(self, stubs):
             for s in stubs:
-                notes["produced"] += 1
+                cur["produced"] += 1
                 yield s
 
     strategy = Strategy(ssh_config=SSHConfig())
-    status, res, err = "returned", None, None
-    try:
-        with time_limit():
-            res = strategy.authenticate(transport)
-    except AuthFailure as e:
-        status, res = "raised", getattr(e, "result", None)
-    except BaseException as e:  # anything else leaves authenticate(): neither a result nor AuthFailure
-        status, res, err = "propagated", None, repr(e)
+    handed_out = []          # (result object, [(id(source), id(result))...] when it was handed out)
 
-    entries = []
-    try:
-        listed = list(res) if res is not None else []
-    except TypeError:
-        listed = []
-        status, err = "propagated", "result is not iterable: %r" % (res,)
-    for x in listed:
-        src, kind, of = 0, "other", 0
+    def snapshot(res):
         try:
-            xs, xr = x.source, x.result
-        except AttributeError:
+            return [(id(getattr(x, "source", None)), id(getattr(x, "result", None))) for x in list(res)]
+        except TypeError:
+            return None
+
+    records = []
+    for prog in progs:
+        stubs = [Stub(k + 1, kind) for k, kind in enumerate(prog)]
+        cur.update(stubs=stubs, events=[], produced=0, transport_ok=True)
+        status, res, err = "returned", None, None
+        try:
+            with time_limit():
+                res = strategy.authenticate(transport)
+        except AuthFailure as e:
+            status, res = "raised", getattr(e, "result", None)
+        except BaseException as e:  # anything else leaves authenticate(): neither a result nor AuthFailure
+            status, res, err = "propagated", None, repr(e)
+        entries = []
+        try:
+            listed = list(res) if res is not None else []
+        except TypeError:
+            listed = []
+            status, err = "propagated", "result is not iterable: %r" % (res,)
+        for x in listed:
+            src, kind, of = 0, "other", 0
             try:
-                xs, xr = x
-            except Exception:
-                xs, xr = None, None
-        for s in stubs:
-            if xs is s:
-                src = s.k
-        own = stubs[src - 1] if src else None
-        # the entry's own source first (None / 0 / False are shared objects), then anybody's object
-        for s in ([own] if own else []) + stubs:
-            if s.returned and xr is s.ret and repr(xr) == s.ret_repr:
-                kind, of = "ret", s.k
-                break
-            if s.exc is not None and xr is s.exc:
-                kind, of = "exc", s.k
-                break
-        entries.append({"src": src, "kind": kind, "of": of})
-    return {"prog": list(prog), "events": events, "style": style,
-            "final": {"status": status, "result": entries},
-            "produced": notes["produced"], "transport_ok": notes["transport_ok"], "error": err}
+                xs, xr = x.source, x.result
+            except AttributeError:
+                try:
+                    xs, xr = x
+                except Exception:
+                    xs, xr = None, None
+            for s in stubs:
+                if xs is s:
+                    src = s.k
+            own = stubs[src - 1] if src else None
+            # the entry's own source first (None / 0 / False are shared objects), then anybody's object of this call
+            for s in ([own] if own else []) + stubs:
+                if s.returned and xr is s.ret and repr(xr) == s.ret_repr:
+                    kind, of = "ret", s.k
+                    break
+                if s.exc is not None and xr is s.exc:
+                    kind, of = "exc", s.k
+                    break
+            entries.append({"src": src, "kind": kind, "of": of})
+        earlier_changed = any(snapshot(obj) != snap for obj, snap in handed_out)
+        if res is not None:
+            handed_out.append((res, snapshot(res)))
+        records.append({"prog": list(prog), "events": cur["events"], "style": style,
+                        "final": {"status": status, "result": entries}, "earlier_changed": earlier_changed,
+                        "produced": cur["produced"], "transport_ok": cur["transport_ok"], "error": err})
+    return {"calls": records, "style": style, "progs": [list(p) for p in progs]}
+
+
+def run_auth_program(prog, style="generator"):
+    """one authenticate() call on a new strategy object (see run_auth_calls)"""
+    return run_auth_calls([prog], style)["calls"][0]
 
 
 # ============================================================================ C45  AgentSign
